@@ -185,6 +185,7 @@ ztakes_pu :: fn f: pu int -> int -> int do
 end
 ZC :: 7
 zm := 8
+zmb := "g"
 ZT :: (1, 2)
 Zb :: blob {
     a: int,
@@ -458,6 +459,11 @@ class Gen:
                 arms.append("%s -> %s end" % (v, self.expr(t, ctx, d + 2, "case-arm")))
         if use_else:
             arms.append("else %s end" % self.expr(t, ctx, d + 2, "case-arm"))
+        elif r.random() < 0.25:
+            # a repeated arm: still total, still accepted
+            self.count("case-repeated-arm")
+            v, vt = r.choice(self.enums[en])
+            arms.insert(r.randrange(len(arms) + 1), "%s -> %s end" % (v, self.expr(t, ctx, d + 2, "case-arm")))
         return "(case %s do %s end)" % (scrut, " ".join(arms))
 
     def lambda_(self, t, ctx, d):
@@ -732,6 +738,21 @@ C03_KINDS = {
     "param-type":     (None, ['zz7 :: fn q: int do', 'end', 'zz7(true)']),
     "void-store":     (None, ['zz6 := zvoid()']),
     "ret-type":       (None, None),      # needs the slot's return type: see c03_plants
+    # compound assignment on a type without that operator, also with the SAME variable on both sides
+    "compound-self-bool-add": (None, ['zc1 := true', 'zc1 += zc1']),
+    "compound-self-str-sub":  (None, ['zc2 := "s"', 'zc2 -= zc2']),
+    "compound-self-str-mul":  (None, ['zc2 := "s"', 'zc2 *= zc2']),
+    "compound-self-bool-div": (None, ['zc6 := true', 'zc6 /= zc6']),
+    "compound-str-sub":       (None, ['zc3 := "s"', 'zc3 -= "b"']),
+    "compound-str-mul":       (None, ['zc4 := "s"', 'zc4 *= "b"']),
+    "compound-str-div":       (None, ['zc7 := "s"', 'zc7 /= "b"']),
+    "compound-bool-add":      (None, ['zc5 := true', 'zc5 += false']),
+    "compound-bool-sub":      (None, ['zc5 := true', 'zc5 -= false']),
+    "compound-field-self":    (None, ['zc8 := Zb { a: 1, b: "x" }', 'zc8.b -= zc8.b']),
+    "compound-field":         (None, ['zc8 := Zb { a: 1, b: "x" }', 'zc8.b *= "y"']),
+    "compound-captured-self": (None, ['zc9 := "s"', 'zf9 :: fn do', '    zc9 -= zc9', 'end']),
+    "compound-captured":      (None, ['zc9 := true', 'zf9 :: fn do', '    zc9 += true', 'end']),
+    "compound-global-self":   (None, ['zmb -= zmb']),
 }
 
 
@@ -763,7 +784,8 @@ def c03_plants(tmpl, kinds=None):
                     if k in ("var-type", "var-type-const"):
                         out.append((k, "S", i, info, st))
                     continue
-                if d.get("pure") == "1" and k in ("loop-cond", "assign-type", "void-store", "param-type", "var-type"):
+                if d.get("pure") == "1" and (k in ("loop-cond", "assign-type", "void-store", "param-type", "var-type")
+                                             or k.startswith("compound")):
                     continue        # mutable definitions / impure calls are rejected in pure functions anyway
                 out.append((k, "S", i, info, st))
         if k == "ret-type":
@@ -892,6 +914,22 @@ def c05_plants(tmpl, g, r, kinds=None):
             st.setdefault("case-missing-arm", []).append(["case %s do" % val] + arms + ["end"])
         arms = ["    %s -> end" % v for v, _ in vs] + ["    Nope -> end"]
         st.setdefault("case-extra-arm", []).append(["case %s do" % val] + arms + ["end"])
+        if len(vs) >= 2:
+            first = "    %s -> end" % vs[0][0]
+            most = ["    %s -> end" % v for v, _ in vs[:-1]]
+            # as many arms as variants, one variant missing (an arm is repeated)
+            st.setdefault("case-dup-missing", []).append(["case %s do" % val] + most + [first] + ["end"])
+            # more arms than variants, one variant still missing
+            st.setdefault("case-dup-more", []).append(["case %s do" % val] + most + [first, first] + ["end"])
+            # the same through an un-annotated parameter: the enum is only known at the call site
+            st.setdefault("case-dup-missing-param", []).append(
+                ["zcf :: fn zs do", "    case zs do"] + ["    " + a for a in most + [first]] + ["    end", "end", "zcf(%s)" % val])
+            last = closed_expr(("enum", en), g, r) if False else val
+        # every variant covered plus a duplicate: must still be ACCEPTED (positive control, kind prefix "ok:")
+        allarms = ["    %s -> end" % v for v, _ in vs]
+        st.setdefault("ok:case-dup-total", []).append(["case %s do" % val] + allarms + [allarms[0]] + ["end"])
+        st.setdefault("ok:case-dup-total-param", []).append(
+            ["zcg :: fn zs do", "    case zs do"] + ["    " + a for a in allarms + [allarms[-1]]] + ["    end", "end", "zcg(%s)" % val])
     ex["tuple-index-range"] = ["ZT[2]", "(1, 2, 3)[7]"]
     st["tuple-length"] = [["zs2: (int, int) = (1, 2, 3)"], ["zs3 := (1, 2)", "zs3 = (1, 2, 3)"]]
     ex["tuple-length"] = ["((1, 2) == (1, 2, 3))"]
@@ -937,6 +975,39 @@ def start_variants(base):
     out.append(("start-with-param", base[:i] + "start :: fn zarg: int do" + base[i + len("start :: fn do"):]))
     out.append(("start-not-fn", base[:i] + "zstart :: fn do" + base[i + len("start :: fn do"):] + "start :: 1\n"))
     out.append(("start-returns", base[:i] + "zstart :: fn do" + base[i + len("start :: fn do"):] + "start :: fn -> int do\n    1\nend\n"))
+    return out
+
+
+def multi_file_blob_cases(r, n=12):
+    """[(description, main source, {path: source}, must_be_rejected)]: two modules each declare a blob of the SAME
+    name with different (or equal) field sets; a value of one is passed where the other is declared"""
+    out = []
+    names = ["Point", "Item", "Cfg"]
+    fields = ["x", "y", "z", "w"]
+    lit = {"int": "1", "str": '"s"', "float": "1.5", "bool": "true"}
+    for _ in range(n):
+        bn = r.choice(names)
+        fa = r.sample(fields, r.randint(1, 3))
+        ta = {f: r.choice(["int", "str", "float", "bool"]) for f in fa}
+        mode = r.choice(["extra-field", "missing-field", "retyped-field", "same"])
+        fb, tb = list(fa), dict(ta)
+        if mode == "extra-field":
+            nf = r.choice([f for f in fields if f not in fa])
+            fb.append(nf)
+            tb[nf] = "int"
+        elif mode == "missing-field" and len(fb) > 1:
+            fb = fb[:-1]
+        elif mode == "retyped-field":
+            f0 = r.choice(fb)
+            tb[f0] = r.choice([x for x in ["int", "str", "float", "bool"] if x != ta[f0]])
+        elif mode == "missing-field":
+            mode = "same"
+        a = "%s :: blob {\n%s}\norigin :: fn -> %s do\n    %s { %s }\nend\n" % (
+            bn, "".join("    %s: %s,\n" % (f, ta[f]) for f in fa), bn, bn, ", ".join("%s: %s" % (f, lit[ta[f]]) for f in fa))
+        uses = " ".join("print(p.%s)" % f for f in fb[:1])
+        m = ("use a\nprint: fn *X -> void : external\n%s :: blob {\n%s}\nsum :: fn p: %s do\n    %s\nend\nstart :: fn do\n    sum(a.origin())\nend\n"
+             % (bn, "".join("    %s: %s,\n" % (f, tb[f]) for f in fb), bn, "\n    ".join("print(p.%s)" % f for f in fb)))
+        out.append(("same-named blob in two modules: " + mode, m, {"/m/a.sy": a}, mode != "same"))
     return out
 
 
